@@ -27,6 +27,7 @@ RULE = (
     "extended rcode and all option kinds, optional origin with relative names, 5% 'big' messages "
     "whose offsets pass 0x3FFF). non-trivial = >=1 compression pointer and >=2 non-empty sections, or "
     "an UPDATE with a class ANY/NONE RR, or extended rcode >= 16, or size > 0x4000; distinct by SHA-1"
+    " Also: names of exactly 255/254 octets once the origin is appended; UPDATE zones of class IN/CH/HS with the parsed record sets required to carry the zone's class."
 )
 ASSUMPTIONS = [
     "TTLs are generated <= 2^31-1 (the reader maps larger values to 0 by design)",
